@@ -134,3 +134,21 @@ Proof.
   - match goal with |- context [(?a + 65 * ?m) mod 65] => destruct (div65 a m ltac:(lia)) as [A B]; rewrite A, B end. lia.
   - match goal with |- context [(?a + 65 * ?m) mod 65] => destruct (div65 a m ltac:(lia)) as [A B]; rewrite A, B end. lia.
 Qed.
+
+(* every cell of the output table is written by at most one iteration: the iterations of the
+   `#pragma omp parallel for collapse(2)` nest (and the serial last-row loop) touch pairwise
+   different cells, so their order and interleaving are immaterial (C10) *)
+Theorem c_zmat_single_writer norb nele x y : 1 <= nele <= norb ->
+  In x (c_calculate_Z_matrix_assigns norb nele) -> In y (c_calculate_Z_matrix_assigns norb nele) ->
+  fst x = fst y -> x = y.
+Proof.
+  intros Hn Hx Hy E. apply in_c_assigns in Hx. apply in_c_assigns in Hy.
+  destruct Hx as [[km [llm [Hk [Hl Ex]]]]|[ll [Hl Ex]]]; destruct Hy as [[km' [llm' [Hk' [Hl' Ey]]]]|[ll' [Hl' Ey]]];
+    subst x y; cbn [fst snd] in E.
+  - destruct (flat_index_inj norb (llm + (km + 1) - 1) (km + 1 - 1) (llm' + (km' + 1) - 1) (km' + 1 - 1) ltac:(lia) ltac:(lia) E) as [P Q].
+    replace km' with km by lia. replace llm' with llm by lia. reflexivity.
+  - destruct (flat_index_inj norb (llm + (km + 1) - 1) (km + 1 - 1) (ll' - 1) (nele - 1) ltac:(lia) ltac:(lia) E) as [P Q]. lia.
+  - destruct (flat_index_inj norb (ll - 1) (nele - 1) (llm' + (km' + 1) - 1) (km' + 1 - 1) ltac:(lia) ltac:(lia) E) as [P Q]. lia.
+  - destruct (flat_index_inj norb (ll - 1) (nele - 1) (ll' - 1) (nele - 1) ltac:(lia) ltac:(lia) E) as [P Q].
+    replace ll' with ll by lia. reflexivity.
+Qed.
